@@ -11,6 +11,11 @@
 //
 // (K) the lock events recorded through the verifEvent points (kinds 200-299) of completed runs are written as
 // Coq cases; Corr/C09Run.v replays them on the model Conc/Locks.v (`accepts`).
+//
+// OPTIONS PART (opt*.go): (K) KOpt = generated opt.Options values through the real getters (opt.VerifGetters)
+// against the model Gen/Options.v; (P) the witnesses of the option relations of Props/C09O.v and legal-but-extreme
+// option points on the real DB, one process each, under a watchdog (optscen.go, optwit.go), and a documentation
+// oracle for the getters (optoracle.go).
 package main
 
 import (
@@ -140,6 +145,16 @@ func main() {
 
 	if a.Replay != "" {
 		if osc, ok := loadOptScenario(a.Replay); ok {
+			if osc.GetterOracle {
+				res.Eval("replay-getter-oracle", true)
+				if d := docOracle(&osc.Raw); d != "" {
+					fmt.Println("replay fails:", d)
+					res.ViolateWith("option getter disagrees with its documentation: "+d, osc, "", nil)
+				} else {
+					fmt.Println("replay passes")
+				}
+				return
+			}
 			out := runOptChild(self, a.Out, osc)
 			judgeOpt(res, osc, out)
 			if res.NViolations() > 0 {
